@@ -1,13 +1,14 @@
-(* Correspondence harness for MTVRP (C01-C06): the model at float32 rounding ([f32]) with the shipped strict
-   time comparisons (R = false) against recorded traces, and the exact specification evaluated on the
+(* Correspondence harness for MTVRP (C01-C06): the model at float32 rounding ([f32]) with the [<=] time comparisons
+   of the code as it is since /repo 9b8ead8 (R = true) against recorded traces, and the exact specification evaluated on the
    implementation's own episodes. *)
 From Coq Require Import ZArith List Bool Lia Arith.
 From RL4CO Require Import Base.Num Base.EnvSig Spec.Routes Spec.VRPFeatures Env.MTVRP Env.MTVRPProofs Harness.HEnv.
 Import ListNotations.
 Open Scope Z_scope.
 
-(* which variant of the time comparison the implementation is expected to have: false = shipped code *)
-Definition impl_repaired : bool := false.
+(* which variant of the time comparison the implementation is expected to have: true = [<=] (/repo 9b8ead8);
+   false = the former strict [<] (C05 finding recorded as fixed) *)
+Definition impl_repaired : bool := true.
 Notation M := (MTVRP f32 impl_repaired).
 
 (* (instance, slack for spec-on-impl: 0 on exact-grid data), trace, final mask, (impl reward, tolerance),
